@@ -81,6 +81,7 @@ Conforms(e) ==
          /\ e.out.panic = "" /\ e.in.id \in DOMAIN insts
          /\ (e.out.err = "") <=> (ExpectedErr(e) = "")
          /\ e.in.bad # "" => e.out.state_same
+         /\ (e.in.bad = "" /\ e.in.nblocks = 0) => e.out.state_same      \* squeezing nothing changes nothing (AfterSqueeze keeps dir)
          /\ e.in.bad = "" => /\ ObsOK(NewObs(e, insts[e.in.id]))
                              /\ AuditOK(e, insts[e.in.id])
     [] OTHER -> FALSE
